@@ -34,6 +34,9 @@ PadVarint(u, k) == LET base == IF u = <<>> THEN <<0>> ELSE u
                        n == Len(base) + k IN
                    [i \in 1..n |-> (IF i <= Len(base) THEN base[i] ELSE 0) + (IF i < n THEN 128 ELSE 0)]
 
+\* as much padding as stays within the 10-byte limit
+PadVarintCapped(u, k) == LET n == IF u = <<>> THEN 1 ELSE Len(u) IN PadVarint(u, IF n + k > 10 THEN 10 - n ELSE k)
+
 (* ------------------------- scalar kinds ------------------------- *)
 VarintKinds == {"int32", "int64", "uint32", "uint64", "sint32", "sint64", "bool", "enum"}
 Fixed32Kinds == {"fixed32", "sfixed32", "float"}
